@@ -7,7 +7,7 @@ set -u
 wt=/tmp/sens-wt
 git -C /repo worktree remove --force $wt 2>/dev/null; rm -rf $wt
 git -C /repo worktree add -q --detach $wt HEAD || exit 2
-out=/verif/sensitivity
+out="${SENS_OUT:-/verif/sensitivity}"
 mkdir -p $out
 mk() { # id property description file sed-args...
   local id="$1" prop="$2" desc="$3" file="$4"; shift 4
@@ -65,5 +65,11 @@ mk s20-tuple-len C20 "serialize_tuple_struct declares len instead of len + 1" \
   $P/serde/alpha_serializer.rs 's/inner: self\.inner\.serialize_tuple_struct\(name, len \+ 1\)\?,/inner: self.inner.serialize_tuple_struct(name, len)?,/'
 mk s20-unit-struct-alpha-lost C20 "unit struct color with alpha: serialize_unit_struct writes the alpha as a unit struct (alpha lost)" \
   $P/serde/alpha_serializer.rs 's/self\.inner\.serialize_newtype_struct\(name, self\.alpha\)/{ let _ = self.alpha; self.inner.serialize_unit_struct(name) }/'
+mk s20-de-tuple-len C20 "AlphaDeserializer::deserialize_tuple and deserialize_tuple_struct ask for len instead of len + 1 (invisible to JSON and RON, which ignore the requested length)" \
+  $P/serde/alpha_deserializer.rs '30,65s/^(\s*)len \+ 1,$/\1len,/'
+mk s20-sloppy-alpha-key C20 "the alpha key is compared ignoring ASCII case (a foreign key \"Alpha\" becomes the alpha)" \
+  $P/serde/alpha_deserializer.rs 's/if v == "alpha" \{/if v.eq_ignore_ascii_case("alpha") {/'
+mk s20-index-alpha-ge C20 "any field index >= field_count is taken for alpha" \
+  $P/serde/alpha_deserializer.rs 's/if v == field_count as u64 \{/if v >= field_count as u64 {/'
 git -C /repo worktree remove --force $wt; rm -rf $wt
 ls $out | wc -l
